@@ -190,6 +190,13 @@ pub fn classify_with(diffs: &[Diff], reference: Option<&Dump>) -> String {
     if changed.is_empty() && removed.is_empty() && matches!(sec, "member" | "minfo" | "ref" | "operator" | "global") {
         return "resubmit-resolves-more".into();
     }
+    // the same declaration (same location) now belongs to another owner
+    if matches!(sec, "member" | "operator") && changed.is_empty() && !removed.is_empty() && {
+        let loc = |l: &str| l.split(" at ").nth(1).unwrap_or("").split(' ').next().unwrap_or("").to_string();
+        removed.iter().all(|l| added.iter().any(|r| loc(r) == loc(l) && !loc(l).is_empty()))
+    } {
+        return "owner-rehomed".into();
+    }
     match sec {
         "desc" => {
             // lost, re-added or replaced: the documentation of an owner changed
@@ -250,7 +257,7 @@ pub fn classify_with(diffs: &[Diff], reference: Option<&Dump>) -> String {
                         }
                     }
                     if k(&ld) == "member" && k(&rd) == "member" {
-                        return "sem:member-decl-switched".into();
+                        return "member-definition-order".into();
                     }
                     return format!("sem:decl-changed:{}>{}", k(&ld), k(&rd));
                 }
@@ -336,6 +343,14 @@ pub fn classify_with(diffs: &[Diff], reference: Option<&Dump>) -> String {
                 return format!("{}:removed", fm(l));
             }
             format!("{}:added", added.first().map(|l| fm(l)).unwrap_or(""))
+        }
+        "member" if changed.is_empty() && !removed.is_empty() && !added.is_empty() && {
+            // the same Owner.key defined at another location: the definition that owns the key switched files
+            let name = |l: &str| l.split(" at ").next().unwrap_or("").to_string();
+            removed.iter().all(|l| added.iter().any(|r| name(r) == name(l)))
+        } =>
+        {
+            "member-definition-order".into()
         }
         "global" | "member" | "minfo" | "operator" if !changed.is_empty() => {
             // same owner / location / feature (the subject); only the inferred type after " : " differs
@@ -617,6 +632,11 @@ impl Ctx<'_> {
     fn ty(&self, t: &LuaType) -> String {
         norm_type(&humanize_type(self.db, t, RenderLevel::Detailed))
     }
+    /// names only (no member listing): for super types, where the members of the super class are not
+    /// part of the fact being dumped
+    fn ty_brief(&self, t: &LuaType) -> String {
+        norm_type(&humanize_type(self.db, t, RenderLevel::Simple))
+    }
     fn type_id(&self, id: &LuaTypeDeclId) -> String {
         use emmylua_code_analysis::LuaTypeIdentifier::*;
         match id.get_id() {
@@ -711,10 +731,11 @@ pub fn dump(analysis: &EmmyLuaAnalysis, opts: &DumpOpts) -> Dump {
             line.push_str(&format!(" origin={}", t.get_alias_ref().map(|o| cx.ty(o)).unwrap_or_else(|| "-".into())));
         }
         if t.is_enum() {
-            line.push_str(&format!(" enum_key={} field_type={}", t.is_enum_key(), t.get_enum_field_type(db).map(|o| cx.ty(&o)).unwrap_or_else(|| "-".into())));
+            // the field type of an enum is computed from its members, which the member section lists
+            line.push_str(&format!(" enum_key={}", t.is_enum_key()));
         }
         if let Some(supers) = db.get_type_index().get_super_types(&id) {
-            let mut s: Vec<String> = supers.iter().map(|s| cx.ty(s)).collect();
+            let mut s: Vec<String> = supers.iter().map(|s| cx.ty_brief(s)).collect();
             s.sort();
             line.push_str(&format!(" supers=[{}]", s.join(" ")));
         }
@@ -762,6 +783,23 @@ pub fn dump(analysis: &EmmyLuaAnalysis, opts: &DumpOpts) -> Dump {
         type_ids.push(id);
     }
 
+    // ── members hung on type names that have no declaration (`---@type Foo` without a class Foo) ──
+    for name in opts.name_probes {
+        let id = LuaTypeDeclId::global(name);
+        if type_ids.contains(&id) {
+            continue;
+        }
+        if let Some(members) = db.get_member_index().get_members(&LuaMemberOwner::Type(id)) {
+            for m in members {
+                if cx.is_std(m.get_file_id()) {
+                    continue;
+                }
+                let ty = db.get_type_index().get_type_cache(&m.get_id().into()).map(|c| cx.ty(c.as_type())).unwrap_or_else(|| "-".into());
+                d.push("member", format!("undeclared:{name}.{} at {} {:?} : {}", cx.key(m.get_key()), cx.loc(m.get_file_id(), m.get_range()), m.get_feature(), ty));
+            }
+        }
+    }
+
     // ── semantic-level member infos of every type (needs a model; any live file will do) ──
     if let Some(f0) = files.first() {
         if let Some(model) = analysis.compilation.get_semantic_model(*f0) {
@@ -803,6 +841,17 @@ pub fn dump(analysis: &EmmyLuaAnalysis, opts: &DumpOpts) -> Dump {
         global_names.insert(decl.get_name().to_string());
     }
     for name in &global_names {
+        // members hung on the global path itself (`K.a = 1` while K has no table / class of its own)
+        let owner = LuaMemberOwner::GlobalPath(emmylua_code_analysis::GlobalId::new(name));
+        if let Some(members) = db.get_member_index().get_members(&owner) {
+            for m in members {
+                if cx.is_std(m.get_file_id()) {
+                    continue;
+                }
+                let ty = db.get_type_index().get_type_cache(&m.get_id().into()).map(|c| cx.ty(c.as_type())).unwrap_or_else(|| "-".into());
+                d.push("member", format!("global-path:{name}.{} at {} {:?} : {}", cx.key(m.get_key()), cx.loc(m.get_file_id(), m.get_range()), m.get_feature(), ty));
+            }
+        }
         if let Some(refs) = db.get_reference_index().get_global_references(name) {
             for r in refs {
                 if cx.is_std(r.file_id) {
